@@ -238,9 +238,10 @@ class GroupBase:
         if isinstance(value, (str, int, float, np.integer, np.floating)):
             value = [value] * len(idx)
 
+        # delegate to `Model.set`, which also keeps what depends on the value up to date
+        # (time constants stored in `dae.Tf` and the mass matrix, model-specific hooks)
         for mdl, ii, val in zip(models, idx, value):
-            uid = mdl.idx2uid(ii)
-            mdl.__dict__[src].__dict__[attr][uid] = val
+            mdl.set(src, ii, attr, val)
 
         return True
 
